@@ -39,7 +39,7 @@ CLAIMS = {
  "C18": ("Kani lemmas on the real SchemaWriter: same bytes as plain serialization, rows in pre-order, within the stream, nesting without partial overlap, leaf rows tile the stream, recorded alignments hold",
          "5 C18", "alloc::fmt::format stubbed (string contents are not part of the property); payload-level (ROOT row) only; CSV/debug rendering reduced to the in-range property of row offsets"),
  "C19": ("Kani per-operation lemmas from an arbitrary reachable state against the real std::io::Cursor<Vec<u8>> as oracle (seek complete; read/write bounded)",
-         "5 C19", "content <= 20 bytes, read/write <= 5 bytes, position <= 40; histories of any length by induction over the state invariant"),
+         "5 C19", "content <= 6 bytes, read/write <= 3-5 bytes, position <= 20 (40 thorough); histories of any length by induction over the state invariant"),
 }
 
 NOT_APPLICABLE = {
